@@ -262,7 +262,7 @@ func (g *sgen) inboxActivity(ty string, world J) J {
 	return a
 }
 
-var outboxTypes = []string{"Create", "Update", "Delete", "Follow", "Add", "Remove", "Like", "Undo", "Block", "Announce", "Accept", "Note", "Article", "Listen", "Arrive", "Travel", "Question"}
+var outboxTypes = []string{"Create", "Update", "Delete", "Follow", "Add", "Remove", "Like", "Undo", "Block", "Announce", "Accept", "Note", "Article", "Listen", "Arrive", "Travel", "Question", "Push"}
 
 // something a client posts to alice's outbox
 func (g *sgen) outboxValue(ty string, world J) J {
